@@ -132,13 +132,15 @@ def gen_scenario(rng, index):
                   "mode": rng.choice(["late", "late", "uniform", "uniform", "fixed"]), "back": rng.randrange(0, 16)}
     else:
         policy = {"kind": "pct", "d": rng.choice([1, 2, 3])}
+    sc_pre = rng.choice([0] * 16 + [150, 300]) if family != "cold" else 0
     return {"index": index, "texts": texts, "shared": shared, "threads": th, "policy": policy, "sched_stream": "sched",
             "epi": rng.random(), "family": family,
             # a long-lived process: this many small distinct texts are compiled (sequentially) before the threads start, so that
             # bounded process-wide caches are full and their eviction paths run during the race
-            "preload": rng.choice([0] * 16 + [150, 300]) if family != "cold" else 0,
+            "preload": sc_pre,
             # instruction-level pre-emption inside the vendored sly lexer / parser as well (small workloads only)
-            "deep_sly": family in ("race", "cold") and rng.random() < 0.12}
+            "deep_sly": family in ("race", "cold") and max(len(t["text"]) for t in texts) < 3000
+            and rng.random() < (0.6 if sc_pre else 0.15)}
 
 
 # ---------------------------------------------------------------------------
@@ -303,6 +305,8 @@ class Runner:
         # exceeding four times that is a hang, not a long run
         need = sum(len(texts[op["t"]]["text"]) * 8 + 4000 for ops in sc["threads"] for op in ops if op["op"] in ("new", "recompile")) \
             + 3000 * sum(len(ops) for ops in sc["threads"])
+        if sc.get("deep_sly"):
+            need *= 12
         chooser = self.make_chooser(sc, seed, decisions, est, judged)
         sched = threads.Scheduler([make_body(i, ops) for i, ops in enumerate(sc["threads"])], chooser, self.fc,
                                   step_cap=max(2_000_000, 4 * need))
